@@ -53,3 +53,9 @@ Proof.
   repeat split. rewrite (emit_is_render doc ps ret H1 H2 H4 H5). unfold render. rewrite <- app_assoc. eexists. reflexivity.
 Qed.
 Print Assumptions C15_rest_header_survives.
+
+(* the section tokens of Model/DocSplit.v are the source's TOKENS_SET (first line of every token of the three styles; regenerated
+   from cdd/shared/docstring_utils.py by translate/constants.py, which also checks the expression that builds the set) *)
+From CDD Require Import SourceConstants.
+Theorem C15_tokens_set_is_the_sources : tokens_set = src_tokens_set_sorted.
+Proof. vm_compute. reflexivity. Qed.
